@@ -21,7 +21,7 @@ use std::path::Path;
 
 pub struct Transport;
 const P: &str = "C30";
-pub const N_FIX: usize = 13;
+pub const N_FIX: usize = 14;
 
 #[derive(Clone, Debug, Serialize, Deserialize)]
 pub struct Workload {
@@ -36,7 +36,7 @@ pub struct Workload {
 pub const FIXTURE_SH: &str = r#"
 set -eu
 dir="$1"; cd "$dir"
-[ -f done-c30 ] && exit 0
+[ -f done-c30v3 ] && exit 0
 export GIT_AUTHOR_DATE="2000-01-01 00:00:00 +0000" GIT_COMMITTER_DATE="2000-01-01 00:00:00 +0000"
 export GIT_AUTHOR_NAME=a GIT_AUTHOR_EMAIL=a@e GIT_COMMITTER_NAME=c GIT_COMMITTER_EMAIL=c@e
 export GIT_CONFIG_NOSYSTEM=1 GIT_CONFIG_GLOBAL=/dev/null HOME="$dir"
@@ -87,7 +87,14 @@ mk 10; commit a; git branch one; git tag -a -m t t; git pack-refs --all; commit 
 mk 11; commit a; git symbolic-ref refs/heads/b refs/heads/main; git symbolic-ref refs/heads/a refs/heads/b; git symbolic-ref HEAD refs/heads/a; truth 11
 # 12: HEAD symbolic to a tag ref (annotated)
 mk 12; commit a; git tag -a -m v v; git symbolic-ref HEAD refs/tags/v; truth 12
-touch done-c30
+# 13: hidden refs: what the server does not advertise is not there for the client
+mk 13; commit a; git branch visible; git update-ref refs/custom/secret "$(git rev-parse HEAD)"; git update-ref refs/pull/1/head "$(git rev-parse HEAD)"; git tag -a -m hidden hiddentag
+git config uploadpack.hideRefs refs/custom; git config --add uploadpack.hideRefs refs/pull; git config --add transfer.hideRefs refs/tags/hiddentag
+truth 13
+grep -v -e '^refs/custom/' -e '^refs/pull/' -e '^refs/tags/hiddentag' truth-13.tsv > truth-13.tmp; mv truth-13.tmp truth-13.tsv
+# (a GIT_NAMESPACE fixture was tried and dropped: git 2.39's ls-refs lists the namespaced HEAD twice and prints
+# `symref-target:(null)` for a symbolic ref that leaves the namespace — server defects, not gitoxide's)
+touch done-c30v3
 "#;
 
 /// (name, kind, target, tag, object) with kind in direct|peeled|symbolic|unborn
@@ -244,6 +251,12 @@ impl Scenario for Transport {
         // announced unless it is 1 (gix-transport/src/client/blocking_io/file.rs, git/mod.rs message::connect)
         if w.version != 1 {
             cmd.env("GIT_PROTOCOL", format!("version={}", w.version));
+        }
+        // per-fixture server environment (e.g. a namespace)
+        for l in std::fs::read_to_string(ctx.worker_dir.join(format!("env-{}", w.fixture))).unwrap_or_default().lines() {
+            if let Some((k, v)) = l.split_once('=') {
+                cmd.env(k, v);
+            }
         }
         let ch = Choices::new_plain(ctx.seed, STREAM_FAULT, ctx.replay.clone());
         let peer = match Peer::spawn(cmd, w.read_plan.clone(), w.write_plan.clone(), ch) {
